@@ -115,7 +115,7 @@ def write_replay(prop, unit_res, fail, idx, extra=None):
     d = os.path.join(ROOT, "replay", prop)
     os.makedirs(d, exist_ok=True)
     fnname = re.sub(r"[^A-Za-z0-9_]+", "_", str(fail.get("function")))
-    p = os.path.join(d, "%s__%s__%d.json" % (unit_res["unit"], fnname, idx))
+    p = os.path.join(d, "%s__%s__%d.json" % (re.sub(r"[^A-Za-z0-9_]+", "_", unit_res["unit"]), fnname, idx))
     src_file, src_line = (None, None)
     ex = unit_res.get("_ex")
     if ex is not None and fail.get("line"):
@@ -198,7 +198,12 @@ def check_property(prop, tier, repo, cfg, seed):
             if not attached:
                 # no Verus verdict to attach to (unit could not be assembled, code outside any contract, or proofs pass
                 # while the real code disagrees with the reference): the failing input itself is the violation
-                host = trouble[0] if trouble else (cunits[0] if cunits else (results[0] if results else None))
+                if trouble:
+                    host = trouble[0]
+                else:
+                    host = {"unit": "companion:" + os.path.splitext(os.path.basename(comp["file"]))[0], "backend": "native", "status": "violated",
+                            "reason": "", "failed": [], "functions": [], "cmd": cr["cmd"], "wall_s": cr["wall_s"]}
+                    results.append(host)
                 if host is not None:
                     why = host.get("reason") if trouble else "code outside the contracted functions"
                     host.setdefault("failed", []).append({
@@ -220,7 +225,7 @@ def check_property(prop, tier, repo, cfg, seed):
     samples = []
     per_unit = []
     for r in results:
-        ucfg = cfg["verus_units"].get(r["unit"]) or cfg["kani_units"].get(r["unit"])
+        ucfg = cfg["verus_units"].get(r["unit"]) or cfg["kani_units"].get(r["unit"]) or {"properties": [prop]}
         for t in ucfg.get("trusted_base", []):
             trusted.add(t)
         for k, v in (r.get("assumptions") or {}).items():
@@ -260,7 +265,9 @@ def check_property(prop, tier, repo, cfg, seed):
             idx += 1
             path = write_replay(prop, r, fail, idx)
             violations.append((r, fail, path))
-        if r["backend"] == "verus":
+        if r["backend"] == "native":
+            pass
+        elif r["backend"] == "verus":
             obligations += len(real)
             discharged += len([f for f in real if f["success"]])
         else:
